@@ -15,8 +15,8 @@ import (
 	crand "crypto/rand"
 	"crypto/sha256"
 	"crypto/sha512"
-	"hash"
 	"fmt"
+	"hash"
 	"math/big"
 	"os"
 	"runtime"
@@ -180,8 +180,8 @@ func c12ScalarTargets(g *gen, bound *big.Int, size int) []*big.Int {
 			continue
 		}
 		top := new(big.Int).Lsh(one, uint(8*(size-k))) // 2^(8(size-k)): first value with k-1 leading zero bytes
-		add(new(big.Int).Sub(top, one))                 // largest with k leading zero bytes
-		add(new(big.Int).Rsh(top, 8))                   // smallest with k leading zero bytes
+		add(new(big.Int).Sub(top, one))                // largest with k leading zero bytes
+		add(new(big.Int).Rsh(top, 8))                  // smallest with k leading zero bytes
 		if k > 3 && !g.thorough() {
 			continue
 		}
@@ -243,7 +243,7 @@ func genEdSign(g *gen, e *edAPI, p edParams, sk []byte) {
 		emit("mimc", msg, oin, oout)
 	}
 	emit("const", g.rng.bytes(7), "~", hexBytes(g.rng.bytes(32)))
-	emit("const", g.rng.bytes(7), "~", hexBytes(g.rng.bytes(64))) // a digest much larger than ℓ
+	emit("const", g.rng.bytes(7), "~", hexBytes(g.rng.bytes(64)))  // a digest much larger than ℓ
 	emit("const", g.rng.bytes(7), "~", hexBytes(make([]byte, 32))) // H = 0: S = r mod ℓ
 	// (a) S chosen, H solved for:  H = (S − r)·a⁻¹ mod ℓ
 	aInv := new(big.Int).ModInverse(new(big.Int).Mod(scalar, p.order), p.order)
@@ -270,17 +270,17 @@ func genEdSign(g *gen, e *edAPI, p edParams, sk []byte) {
 			emit("const", msg, "~", hexBytes(beBytes(h, dl)))
 		}
 	}
-	// (b) search over messages with the real SHA-256 until S has k = 1, 2 (thorough: 3) leading zero bytes more than ℓ has
-	maxK := g.budget(2, 3)
+	// (b) search over messages with the real SHA-256 until S has k = 1, 2 leading zero bytes more than ℓ has (thorough: also
+	// k = 3 where that takes less than 600000 tries on average; (a) has every k on every curve)
 	lzOrder := leadingZeroBytes(p.order, size)
 	expect := int(new(big.Int).Rsh(p.order, uint(8*(size-lzOrder-1))).Int64()) + 1 // ≈ 1 / P(one more leading zero byte)
-	for j := 2; j <= maxK; j++ {
+	maxK := 2
+	expect *= 256
+	if g.thorough() && expect*256 <= 600000 {
+		maxK = 3
 		expect *= 256
 	}
 	capTries := 4 * expect
-	if lim := g.budget(60000, 400000); capTries > lim {
-		capTries = lim
-	}
 	found := map[int]bool{}
 	base := g.rng.bytes(32)
 	mkMsg := func(i int) []byte { return c12Derive(base, i, 8+i%32) }
